@@ -181,13 +181,15 @@ func emitPrecreate(o *lib.Out, name string, in preInput, scratch string) {
 		lib.Fatalf("nsqd: %v", err)
 	}
 	defer n.kill()
-	// wait until nsqd has identified itself (it then knows the lookupd's HTTP address)
+	// wait until nsqd has read the IDENTIFY reply (it then knows the lookupd's HTTP address):
+	// the lookup loop is sequential, so a second reply frame (its first PING) passing the
+	// proxy means connectCallback has returned
 	dl := time.Now().Add(8 * time.Second)
 	for time.Now().Before(dl) {
-		nodes, _, _ := lookupdPublicView(ld.http, n.tcpPort(), nil)
-		_ = nodes
-		code, b, err := httpDo("GET", "http://"+ld.http+"/nodes", nil)
-		if err == nil && code == 200 && strings.Contains(string(b), fmt.Sprintf("\"tcp_port\":%d", n.tcpPort())) {
+		px.mu.Lock()
+		nf := px.nFrames
+		px.mu.Unlock()
+		if nf >= 2 {
 			break
 		}
 		time.Sleep(10 * time.Millisecond)
